@@ -20,6 +20,7 @@ const (
 	hexValNum       = 10
 	metaSeqLength   = 6
 	setDirectiveLen = 4
+	maxIncludeDepth = 32
 )
 
 // Parser is a inputrc parser.
@@ -34,6 +35,7 @@ type Parser struct {
 	line      int
 	conds     []bool
 	errs      []error
+	includes  []string // files currently being included, outermost first.
 }
 
 // New creates a new inputrc parser.
@@ -358,6 +360,19 @@ func (p *Parser) do(handler Handler, keyword, val string) error {
 		}
 
 		path := expandIncludePath(val)
+
+		// A file that is already being included would be parsed for ever.
+		for _, name := range p.includes {
+			if name == path || len(p.includes) >= maxIncludeDepth {
+				return &ParseError{
+					Name: p.name,
+					Line: p.line,
+					Text: "$include " + val,
+					Err:  ErrIncludeLoop,
+				}
+			}
+		}
+
 		buf, err := handler.ReadFile(path)
 
 		switch {
@@ -367,7 +382,11 @@ func (p *Parser) do(handler Handler, keyword, val string) error {
 			return err
 		}
 
-		return Parse(bytes.NewReader(buf), handler, WithName(val), WithApp(p.app), WithTerm(p.term), WithMode(p.mode))
+		including := func(parser *Parser) {
+			parser.includes = append(append(parser.includes, p.includes...), path)
+		}
+
+		return Parse(bytes.NewReader(buf), handler, WithName(val), WithApp(p.app), WithTerm(p.term), WithMode(p.mode), including)
 	}
 
 	if !p.conds[len(p.conds)-1] {
